@@ -439,4 +439,133 @@ theorem sim_put_narrow {dc : DrawCfg} {rc : RenderCfg} (hrw : RwB dc.rw) {t : Te
       have : ¬ (t.cx + 1 < t.grid.w) := by omega
       rw [pcx, ppw, if_neg this, if_neg this, ps.w, ps.modes]; exact ⟨by omega, rfl⟩
 
+theorem sim_put_wide {dc : DrawCfg} {rc : RenderCfg} (hrw : RwB dc.rw) {t : Term} {a : ATerm} (R : Rep dc rc t a)
+    (m : Int) (comb : List Int) (st : Style) (x y : Int)
+    (hv : Utf8.validRune m = true) (h32 : 32 ≤ m) (hc : ¬ (127 ≤ m ∧ m ≤ 159)) (hw : dc.rw m = 2)
+    (hcomb : ∀ c ∈ comb, CombOk dc.rw c)
+    (hcur : a.cur = some (x, y)) (hpen : a.pen = some st) (hin : a.inGrid x y) (hfit : x + 2 ≤ a.w) :
+    Rep dc rc (t.feed (Utf8.encode m ++ comb.flatMap Utf8.encode))
+      (a.putAt x y (Utf8.encode m ++ comb.flatMap Utf8.encode) 2 st) := by
+  obtain ⟨hx0, hxw, hy0, hyh⟩ := hin
+  have C := R.cur x y hcur hx0 hy0
+  obtain ⟨ck, ccy, c1, _⟩ := C
+  have hxw' : x < (t.grid.w : Int) := by rw [R.w]; exact hxw
+  obtain ⟨ccx, cpw⟩ := c1 hxw'
+  have ex : x = (t.cx : Int) := by omega
+  have ey : y = (t.cy : Int) := by omega
+  have hxn : t.cx + 2 ≤ t.grid.w := by have := R.w; omega
+  have hyn : t.cy < t.grid.h := by have := R.h; omega
+  subst ex; subst ey
+  have P := feed_payload_wide hrw R.good m comb hv h32 hc hw hcomb ck cpw hxn hyn
+  generalize t.feed (Utf8.encode m ++ comb.flatMap Utf8.encode) = t' at P ⊢
+  generalize hb : Utf8.encode m ++ comb.flatMap Utf8.encode = bytes
+  obtain ⟨ps, pcy, pcx, ppw, pget, pr, pp, pc, pg⟩ := P
+  obtain ⟨pk, lk, pe⟩ := R.pen st hpen
+  have e2 : ((t.cx : Int) + 2) = ((t.cx + 2 : Nat) : Int) := by omega
+  apply rep_transfer R ps (by simp) (by simp) (by simp) (by simp) (by simp)
+  · -- cells
+    intro i j hi hj
+    rw [ps.w] at hi; rw [ps.h] at hj
+    rw [putAt_wide_nat]
+    by_cases h0 : i = t.cx ∧ j = t.cy
+    · obtain ⟨rfl, rfl⟩ := h0
+      have : ¬ (t.cx = t.cx + 1) := by omega
+      simp only [this, false_and, if_false, and_self, if_true, CellRep]
+      refine ⟨pc, by rw [pg, pk, lk]; rfl, ?_, by rw [pp, pe]⟩
+      rw [pr, ← hb]; simp
+    · rw [pget i j h0]
+      by_cases hA : i = t.cx + 1 ∧ j = t.cy
+      · rw [if_pos hA, if_pos hA]
+        exact ⟨rfl, by simp [glyphCell, pk, lk]⟩
+      · rw [if_neg hA, if_neg hA, if_neg h0]
+        have old := R.cells i j hi hj
+        by_cases hB : j = t.cy ∧ i = t.cx + 2 ∧ (t.grid.get (t.cx + 2) t.cy).cont = true
+        · rw [if_pos hB]
+          obtain ⟨rfl, rfl, hB⟩ := hB
+          have := cellRep_cont_of old hB
+          rw [← e2] at this
+          have n2 : ¬ (t.cx + 2 + 1 = t.cx) := by omega
+          rcases this with h | h
+          · simp [h]; trivial
+          · simp [h, n2, ← e2]; trivial
+        · rw [if_neg hB, get_clobber]
+          by_cases h1 : j = t.cy ∧ i + 1 = t.cx ∧ (t.grid.get t.cx t.cy).cont = true
+          · rw [if_pos h1]
+            have hne : ¬ (i = t.cx + 2 ∧ j = t.cy ∧ a.grid ((t.cx : Int) + 2) t.cy = .cont) := fun h => by omega
+            rw [if_neg hne]
+            by_cases h2 : i + 1 = t.cx ∧ j = t.cy ∧ a.grid t.cx t.cy = .cont
+            · rw [if_pos h2]; trivial
+            · rw [if_neg h2]
+              have hc' := R.conts i j (by rw [h1.2.1, h1.1]; exact h1.2.2)
+              rcases hc' with hc' | hc'
+              · exfalso; apply h2; refine ⟨h1.2.1, h1.1, ?_⟩
+                have : ((i : Int) + 1) = (t.cx : Int) := by omega
+                rw [this, h1.1] at hc'; exact hc'
+              · rw [hc']; trivial
+          · rw [if_neg h1]
+            have h2 : ¬ (j = t.cy ∧ i = t.cx + 1 ∧ (t.grid.get (t.cx + 1) t.cy).cont = true) := fun h => hA ⟨h.2.1, h.1⟩
+            rw [if_neg h2]
+            split
+            · trivial
+            · split
+              · trivial
+              · exact old
+  · -- conts
+    intro i j hcj
+    have e1 : ((i : Int) + 1) = ((i + 1 : Nat) : Int) := by omega
+    rw [e1, putAt_wide_nat, putAt_wide_nat]
+    by_cases hA : i + 1 = t.cx + 1 ∧ j = t.cy
+    · left; rw [if_pos hA]
+    · rw [if_neg hA]
+      have hne0 : ¬ (i + 1 = t.cx ∧ j = t.cy) := by
+        intro h; rw [h.1, h.2, pc] at hcj; simp at hcj
+      rw [if_neg hne0]
+      rw [pget (i + 1) j hne0, if_neg hA] at hcj
+      have bB : ¬ (j = t.cy ∧ i + 1 = t.cx + 2 ∧ (t.grid.get (t.cx + 2) t.cy).cont = true) := by
+        intro h; rw [if_pos h] at hcj; simp [Grid.halfBlank] at hcj
+      rw [if_neg bB, get_clobber] at hcj
+      have b1 : ¬ (j = t.cy ∧ i + 1 + 1 = t.cx ∧ (t.grid.get t.cx t.cy).cont = true) := by
+        intro h; rw [if_pos h] at hcj; simp [Grid.halfBlank] at hcj
+      rw [if_neg b1] at hcj
+      have b2 : ¬ (j = t.cy ∧ i + 1 = t.cx + 1 ∧ (t.grid.get (t.cx + 1) t.cy).cont = true) := fun h => hA ⟨h.2.1, h.1⟩
+      rw [if_neg b2] at hcj
+      have old := R.conts i j hcj
+      have c1' : ¬ (i + 1 = t.cx + 2 ∧ j = t.cy ∧ a.grid ((t.cx : Int) + 2) t.cy = .cont) := by
+        intro h
+        apply bB; refine ⟨h.2.1, h.1, ?_⟩
+        rw [← h.1, ← h.2.1]; exact hcj
+      rw [if_neg c1']
+      have c2' : ¬ (i + 1 + 1 = t.cx ∧ j = t.cy ∧ a.grid t.cx t.cy = .cont) := by
+        intro h
+        apply b1; refine ⟨h.2.1, h.1, ?_⟩
+        have := R.cells t.cx t.cy (by omega) hyn
+        rw [h.2.2] at this; exact this.1
+      rw [if_neg c2']
+      rcases old with old | old
+      · left; rw [← e1]; exact old
+      · right
+        have nA : ¬ (i = t.cx + 1 ∧ j = t.cy) := by
+          intro h; apply bB; refine ⟨h.2, by omega, ?_⟩
+          have : t.cx + 2 = i + 1 := by omega
+          rw [this, ← h.2]; exact hcj
+        rw [if_neg nA]
+        have n0 : ¬ (i = t.cx ∧ j = t.cy) := fun h => hA ⟨by omega, h.2⟩
+        rw [if_neg n0]
+        split
+        · rfl
+        · split
+          · rfl
+          · exact old
+  · -- cursor
+    intro x' y' hc' hx' hy'
+    simp only [ATerm.putAt_cur, Option.some.injEq, Prod.mk.injEq] at hc'
+    obtain ⟨rfl, rfl⟩ := hc'
+    refine ⟨by rw [ps.cursorKnown]; exact ck, by rw [pcy]; omega, ?_, ?_⟩
+    · intro hlt; rw [ps.w] at hlt
+      have : t.cx + 2 < t.grid.w := by omega
+      rw [pcx, ppw, if_pos this, if_pos this]; exact ⟨by omega, rfl⟩
+    · intro heq; rw [ps.w] at heq
+      have : ¬ (t.cx + 2 < t.grid.w) := by omega
+      rw [pcx, ppw, if_neg this, if_neg this, ps.w, ps.modes]; exact ⟨by omega, rfl⟩
+
 end Tcell.LayerB
